@@ -479,11 +479,11 @@ def gen_cases(tier, rng):
             ms.append(video_msg("avc", i == 0, 40 * i, 0, [nal_token(rng, bytes([0x65 if i == 0 else 0x41]), 30)[0]]))
         yield Case(ts_line("", ms), cls="ts-" + acodec)
     # ---------------- (ii) structured random streams
-    n_rand = 700 if thorough else 150
+    n_rand = 2500 if thorough else 150
     for i in range(n_rand):
         vcodec = rng.choice(["avc", "avc", "hevc", "hevc", None])
         acodec = rng.choice(["aac", "aac", "aac", "opus", None]) if vcodec else rng.choice(["aac", "opus"])
-        big = thorough and i % 25 == 0
+        big = thorough and i % 60 == 0
         opts = dict(sizes=rng.choice([[1, 2, 5, 40], [5, 160, 200, 1300], [3, 2500, 30], [1, 184, 188, 7000]]) + ([307200] if big else []),
                     bframes=rng.random() < 0.4, inband=rng.choice([0, 0, 0.5]), sei=rng.choice([0, 0.3]), aud=rng.choice([0, 0.3, 1.0]),
                     sfi=rng.choice([3, 4, 4, 6, 8, 11, 0]), chan=rng.choice([1, 2]), fps_ms=rng.choice([16, 33, 40, 100, 500]),
@@ -509,7 +509,7 @@ def gen_cases(tier, rng):
             # RTSP with G.711 instead of no audio / as extra variety
             pass
         yield Case(rtsp_line(items), cls="rtsp-random")
-    n_rand2 = 200 if thorough else 50
+    n_rand2 = 600 if thorough else 50
     for i in range(n_rand2):
         acodec = rng.choice(["g711a", "g711u", "opus"])
         vcodec = rng.choice(["avc", "hevc", None])
@@ -518,7 +518,7 @@ def gen_cases(tier, rng):
         items = ([metadata_msg({"g711a": 7, "g711u": 8, "opus": 13}[acodec], rng.choice([None, 8000, 48000]))] if rng.random() < 0.5 else []) + ms
         yield Case(rtsp_line(items), cls="rtsp-random-g711")
     # ---------------- (iii) end to end through logic.Group: HTTP-TS subscribers, HLS segments, RTSP subscribers
-    n_e2e = 120 if thorough else 36
+    n_e2e = 500 if thorough else 36
     for i in range(n_e2e):
         vcodec = rng.choice(["avc", "avc", "hevc", None])
         acodec = rng.choice(["aac", "aac", "opus", None]) if vcodec else rng.choice(["aac", "opus"])
